@@ -78,17 +78,38 @@ Definition sval (bs : list Z) : Z :=
   let v := dec bs in
   let h := 2 ^ (8 * Z.of_nat (length bs) - 1) in
   if v <? h then v else v - 2 * h.
+(* IEEE-754 binary32 / binary64 objects (little endian) are sign-magnitude numbers: apart from
+   NaNs, == and < of two floats are == and < of these keys (+0 and -0 both have key 0).  The
+   model compares floats by their keys: NaN bit patterns ([fnan]) are outside its domain -
+   the generators never produce them - and [ieee_eq] / [ieee_lt] below say what the real
+   operators do on them (CompareThm.ieee_agrees: the two coincide on non-NaN objects) *)
+Definition fhalf (bs : list Z) : Z := 2 ^ (8 * Z.of_nat (length bs) - 1).
+Definition fmag (bs : list Z) : Z := dec bs mod fhalf bs.
+Definition fneg (bs : list Z) : bool := fhalf bs <=? dec bs.
+Definition fkey (bs : list Z) : Z := if fneg bs then - fmag bs else fmag bs.
+Definition finf (n : nat) : Z :=
+  match n with 4%nat => 2139095040 | 8%nat => 9218868437227405312 | _ => 2 ^ (8 * Z.of_nat n) end.
+Definition fnan (bs : list Z) : bool := finf (length bs) <? fmag bs.
+Definition ieee_eq (a b : list Z) : bool := negb (fnan a) && negb (fnan b) && (fkey a =? fkey b).
+Definition ieee_lt (a b : list Z) : bool := negb (fnan a) && negb (fnan b) && (fkey a <? fkey b).
+
+Definition obj_eq (t : ty) (a b : list Z) : bool :=
+  match t with
+  | TFlt => fkey a =? fkey b
+  | _ => list_eqb a b
+  end.
 Definition obj_lt (t : ty) (a b : list Z) : bool :=
   match t with
   | TUInt | TU8 | TByte => dec a <? dec b
   | TSInt | TS8 => sval a <? sval b
+  | TFlt => fkey a <? fkey b
   | _ => lex_lt a b
   end.
 (* four-iterator std::equal over the objects of a span *)
-Fixpoint span_eq (a b : list (list Z)) : bool :=
+Fixpoint span_eq (t : ty) (a b : list (list Z)) : bool :=
   match a, b with
   | [], [] => true
-  | x :: a', y :: b' => list_eqb x y && span_eq a' b'
+  | x :: a', y :: b' => obj_eq t x y && span_eq t a' b'
   | _, _ => false
   end.
 (* std::lexicographical_compare over the objects of a span *)
@@ -105,7 +126,7 @@ Definition equal_one (L : list param) (m1 : mem) (fl1 : list (Z * Z)) (m2 : mem)
            (k : nat) : bool :=
   match nth k (runs_eq L) RSkip with
   | RSkip => true
-  | RManual => span_eq (fld_objs L m1 fl1 k) (fld_objs L m2 fl2 k)
+  | RManual => span_eq (pty (nth k L pparam0)) (fld_objs L m1 fl1 k) (fld_objs L m2 fl2 k)
   | REnd e => list_eqb (run_bytes L m1 fl1 k e) (run_bytes L m2 fl2 k e)
   end.
 Definition elem_equal (L : list param) (m1 : mem) (fl1 : list (Z * Z)) (m2 : mem) (fl2 : list (Z * Z)) : bool :=
